@@ -24,7 +24,7 @@ from hypothesis import strategies as st
 from vlib import gen
 from vlib.build import build_obs
 from vlib import findings
-from vlib.core import Sub, Violation, Skip, require
+from vlib.core import Sub, Skip, require
 from vlib.refobs import RefObs, combine, cmp_obs
 
 PROPERTY = 'C07'
